@@ -15,6 +15,7 @@ pub mod udp;
 pub mod cert;
 pub mod schemepush;
 pub mod close;
+pub mod hostile;
 
 pub fn run(args: &Args, log: &Log) -> Result<(), String> {
     match args.driver.as_str() {
@@ -34,6 +35,7 @@ pub fn run(args: &Args, log: &Log) -> Result<(), String> {
         "cert" => cert::run(args, log),
         "schemepush" => schemepush::run(args, log),
         "close" => close::run(args, log),
+        "hostile" => hostile::run(args, log),
         d => Err(format!("unknown driver {d}")),
     }
 }
